@@ -1,6 +1,6 @@
 (** Concrete data for the non-vacuity Examples of Props/C16.v (strings as code points). *)
-From Coq Require Import List NArith.
-From DV Require Import Common.Str.
+From Coq Require Import List NArith ZArith.
+From DV Require Import Common.Str Phoenix.Model Phoenix.Spec.
 Import ListNotations.
 
 (* sSliceArray.asSlice[0].dThickness *)
@@ -51,3 +51,15 @@ Definition ex_k_alTR0 : str := [97; 108; 84; 82; 91; 48; 93]%N.
 Definition ex_k_dFlip : str := [100; 70; 108; 105; 112]%N.
 (* ep2d#bold *)
 Definition ex_v_name : str := [101; 112; 50; 100; 35; 98; 111; 108; 100]%N.
+
+(* the same protocol in the one-quote dialect:  tProtocolName = <q>ep2d#bold<q> # c ; blank ; alTR[0] = 2500 *)
+Definition ex_lines1 : list str := [
+  [116; 80; 114; 111; 116; 111; 99; 111; 108; 78; 97; 109; 101; 32; 61; 32; 34; 101; 112; 50; 100; 35; 98; 111; 108; 100; 34; 32; 35; 32; 99];
+  [];
+  [97; 108; 84; 82; 91; 48; 93; 32; 61; 32; 50; 53; 48; 48]
+]%N.
+
+(* a simplified CSA series dict: an ordinary two-item tag and the MrProtocol element *)
+Definition ex_csa_in : csa_dict :=
+  [ (ex_k_dFlip, CItems [PInt 3%Z; PInt 4%Z]);
+    (K_MrProtocol, CItem (PStr (render_prot ex_before ex_hdr ex_lines1 ex_after))) ].
